@@ -503,6 +503,8 @@ pub fn navigation(ctx: &Ctx, rng: &mut Rng, o: &mut Out) {
     Source { lang: SupportLang::C, name: "witness/missing.c".into(), text: "int f( { return 1 }".into() },
     Source { lang: SupportLang::Python, name: "witness/nested-call.py".into(), text: "f(g(h(1)), g(2))\n".into() },
     Source { lang: SupportLang::Tsx, name: "witness/multibyte.tsx".into(), text: "let é = '中𝒳';\r\nlet b = <a>ü</a>;".into() },
+    // every UTF-8 lead-byte class boundary (DF, E0, E1, EF, F0, F4) before later nodes of the line
+    Source { lang: SupportLang::JavaScript, name: "witness/utf8-classes.js".into(), text: "let s = 'ก'; foo(s)\nlet t = '\u{7FF}\u{800}\u{FFF}\u{1000}\u{FFFD}\u{10000}\u{10FFFF}'; bar(t);\n// ก ࠀ ก\nbaz('ก', \"ก\")".into() },
   ];
   extra.extend(sources);
   for src0 in extra.iter() {
